@@ -235,7 +235,10 @@ def rule_neutralise(ctx, repo, models):
     ctx.check(ok, "C12.neutralise", "System.fg_to_dae", "g_islands() after the residuals are collected",
               "isolated-bus residuals are zeroed before collection (and overwritten) or not at all", f.W())
     g = F.method(repo, "System", "g_islands", SYSTEM)
-    ok = Q.has("self.dae.g[self.Bus.islanded_a] = 0.0", g.fn) and Q.has("self.dae.g[self.Bus.islanded_v] = 0.0", g.fn)
+    def _zeroed(rows):
+        return any(isinstance(st_, ast.Assign) and isinstance(st_.targets[0], ast.Subscript) and dotted(st_.targets[0].value) == "self.dae.g"
+                   and src(st_.targets[0].slice) == rows and isinstance(st_.value, ast.Constant) and st_.value.value == 0 for st_ in ast.walk(g.fn))
+    ok = _zeroed("self.Bus.islanded_a") and _zeroed("self.Bus.islanded_v")
     ctx.check(ok, "C12.neutralise", "System.g_islands", "P and Q rows of isolated buses zeroed", "g_islands no longer zeroes both rows", g.W())
     j = F.method(repo, "System", "j_islands", SYSTEM)
     ok = all(Q.has(pt, j.fn) for pt in ("self.dae.gy.ipset(self.config.diag_eps, aidx, aidx)", "self.dae.gy.ipset(self.config.diag_eps, vidx, vidx)",
